@@ -15,20 +15,34 @@ require (
 	github.com/cespare/xxhash/v2 v2.3.0 // indirect
 	github.com/dgraph-io/ristretto v0.2.0 // indirect
 	github.com/dustin/go-humanize v1.0.1 // indirect
+	github.com/fsnotify/fsnotify v1.8.0 // indirect
 	github.com/gogo/protobuf v1.3.2 // indirect
 	github.com/golang/groupcache v0.0.0-20241129210726-2c02b8208cf8 // indirect
 	github.com/golang/protobuf v1.5.4 // indirect
 	github.com/golang/snappy v0.0.4 // indirect
 	github.com/google/flatbuffers v25.2.10+incompatible // indirect
+	github.com/hashicorp/hcl v1.0.0 // indirect
 	github.com/klauspost/compress v1.18.0 // indirect
+	github.com/magiconair/properties v1.8.7 // indirect
+	github.com/mitchellh/mapstructure v1.5.0 // indirect
+	github.com/pelletier/go-toml/v2 v2.2.3 // indirect
 	github.com/pkg/errors v0.9.1 // indirect
+	github.com/sagikazarmark/slog-shim v0.1.0 // indirect
 	github.com/segmentio/fasthash v1.0.3 // indirect
+	github.com/spf13/afero v1.11.0 // indirect
+	github.com/spf13/cast v1.7.0 // indirect
+	github.com/spf13/pflag v1.0.5 // indirect
+	github.com/spf13/viper v1.19.0 // indirect
+	github.com/subosito/gotenv v1.6.0 // indirect
 	go.opencensus.io v0.24.0 // indirect
 	go.uber.org/multierr v1.11.0 // indirect
 	golang.org/x/exp v0.0.0-20250218142911-aa4b98e5adaa // indirect
 	golang.org/x/net v0.35.0 // indirect
 	golang.org/x/sys v0.30.0 // indirect
+	golang.org/x/text v0.22.0 // indirect
 	google.golang.org/protobuf v1.36.5 // indirect
+	gopkg.in/ini.v1 v1.67.0 // indirect
+	gopkg.in/yaml.v3 v3.0.1 // indirect
 )
 
 replace github.com/DistCompiler/pgo/distsys => /repo/distsys
@@ -56,21 +70,39 @@ require (
 )
 
 replace github.com/DistCompiler/pgo/systems/dqueue => /repo/systems/dqueue
+
 replace github.com/DistCompiler/pgo/systems/gcounter => /repo/systems/gcounter
+
 replace github.com/DistCompiler/pgo/systems/loadbalancer => /repo/systems/loadbalancer
+
 replace github.com/DistCompiler/pgo/systems/locksvc => /repo/systems/locksvc
+
 replace github.com/DistCompiler/pgo/systems/nestedcrdtimpl => /repo/systems/nestedcrdtimpl
+
 replace github.com/DistCompiler/pgo/systems/pbkvs => /repo/systems/pbkvs
+
 replace github.com/DistCompiler/pgo/systems/proxy => /repo/systems/proxy
+
 replace github.com/DistCompiler/pgo/systems/raftkvs => /repo/systems/raftkvs
+
 replace github.com/DistCompiler/pgo/systems/replicatedkv => /repo/systems/replicatedkv
+
 replace github.com/DistCompiler/pgo/systems/shcounter => /repo/systems/shcounter
+
 replace github.com/DistCompiler/pgo/systems/shopcart => /repo/systems/shopcart
+
 replace github.com/DistCompiler/pgo/test/files/general/ExprTests.tla.gotests => /repo/pgo/test/files/general/ExprTests.tla.gotests
+
 replace github.com/DistCompiler/pgo/test/files/general/IndexingLocals.tla.gotests => /repo/pgo/test/files/general/IndexingLocals.tla.gotests
+
 replace github.com/DistCompiler/pgo/test/files/general/NonDetExploration.tla.gotests => /repo/pgo/test/files/general/NonDetExploration.tla.gotests
+
 replace github.com/DistCompiler/pgo/test/files/general/PBFail4_bug125.tla.gotests => /repo/pgo/test/files/general/PBFail4_bug125.tla.gotests
+
 replace github.com/DistCompiler/pgo/test/files/general/ProcedureSpaghetti.tla.gotests => /repo/pgo/test/files/general/ProcedureSpaghetti.tla.gotests
+
 replace github.com/DistCompiler/pgo/test/files/general/bug2_124.tla.gotests => /repo/pgo/test/files/general/bug2_124.tla.gotests
+
 replace github.com/DistCompiler/pgo/test/files/general/bug_119.tla.gotests => /repo/pgo/test/files/general/bug_119.tla.gotests
+
 replace github.com/DistCompiler/pgo/test/files/general/hello.tla.gotests => /repo/pgo/test/files/general/hello.tla.gotests
